@@ -145,8 +145,8 @@ def ATAN2(x_num, y_num):
     y_num = utils.parse_number(y_num)
     if isinstance(y_num, error.XLError):
         return y_num
-    if y_num == 0:
-        return error.DIV_ZERO
+    if x_num == 0 and y_num == 0:
+        return error.DIV_ZERO  # only the origin has no angle
     return math.atan2(y_num, x_num)
 
 
